@@ -53,7 +53,9 @@ Numeric == IntFamily \cup {"decimal", "double", "float"}
 JudgeLex(e) ==
   IF Has(e, "raise") THEN "ConstructionRaised"
   ELSE IF e.dt \notin Judged \/ Unjudged(e.dt, e.lex) THEN
-       (IF e.hasval /\ e.out2 # e.out THEN "NormalisationIdempotent" ELSE IF e.hasval /\ ~e.same THEN "NormalisationKeepsValue" ELSE "ok")
+       \* (the python value of a not yet white-space-processed token / normalizedString is its raw text: whether the facet has been applied to it is not judged)
+       (IF e.hasval /\ e.out2 # e.out THEN "NormalisationIdempotent"
+        ELSE IF e.hasval /\ ~e.same /\ e.dt \notin {"token", "normalizedString"} THEN "NormalisationKeepsValue" ELSE "ok")
   ELSE LET v == Valid(e.dt, e.lex) IN
        IF ~v /\ ~e.ill THEN "IllTypedAgrees:accepted-invalid:" \o e.dt
        ELSE IF v /\ e.ill THEN "IllTypedAgrees:rejected-valid:" \o e.dt
